@@ -41,4 +41,20 @@ m = dict(
     notes="Entry point ./check Cxx [--tier quick|thorough] [--replay file]; VERIF_SEED seeds the Lean PRNG; known_findings.json lists recorded defects (open) and repaired ones (fixed).",
 )
 json.dump(m, open(os.path.join(ROOT, "MANIFEST.json"), "w"), indent=1)
+# merge known findings
+import glob
+opened, fixed = [], []
+for f in sorted(glob.glob(os.path.join(ROOT, "known_findings.d", "*.json"))):
+    d = json.load(open(f))
+    if os.path.basename(f) == "fixed.json":
+        fixed = d
+    else:
+        opened += d
+ids = {}
+for e in opened:
+    if e["id"] in ids:
+        ids[e["id"]]["properties"] = sorted(set(ids[e["id"]]["properties"]) | set(e["properties"]))
+    else:
+        ids[e["id"]] = e
+json.dump(dict(open=list(ids.values()), fixed=fixed), open(os.path.join(ROOT, "known_findings.json"), "w"), indent=1)
 print("claimed:", [c["property_id"] for c in checks], "not_applicable:", len(na))
